@@ -4,7 +4,7 @@
 SPECIFICATION Spec
 CONSTANTS
   Variant = "as_shipped"
-  Kinds = {"mft", "mftn", "ta", "tah", "notify", "notify1"}
+  Kinds = {"mft", "mftn", "mftr", "ta", "tah", "notify", "notify1"}
   Mode = "near"
   HostsR = {"h.test", "g.test"}
   HostsH = {"h.test", "g.test", "..", ""}
